@@ -636,6 +636,23 @@ func (c *Ctx) c13Counts(b BK, decodeTarget types.Object) {
 			continue
 		}
 		notEOF := false
+		// an error made here (errors.New, fmt.Errorf that wraps nothing) is not io.EOF
+		if rv := p.Ret[1]; rv.Kind == pw.KCall && rv.Ev != nil && rv.Ev.Callee != nil {
+			switch pw.FuncName(rv.Ev.Callee) {
+			case "errors.New":
+				notEOF = true
+			case "fmt.Errorf":
+				wraps := false
+				for _, x := range rv.Ev.Args {
+					for _, el := range append([]*pw.Val{x}, x.Elems...) {
+						if el != nil && el.Type != nil && types.TypeString(el.Type, nil) == "error" {
+							wraps = true
+						}
+					}
+				}
+				notEOF = !wraps
+			}
+		}
 		for _, ev := range p.Events {
 			if ev.Kind == pw.EvCall && ev.Callee != nil && pw.FuncName(ev.Callee) == "errors.Is" && len(ev.Args) == 2 && len(ev.Results) == 1 {
 				if a := ev.Args[1]; a != nil && a.Obj != nil && a.Obj.Name() == "EOF" {
